@@ -34,6 +34,9 @@ EXPLANATION += " R2 evaluates prepare_unrestricted_aminusb and prepare_segmented
 TECHNIQUE += '; CFG / dataflow of the prepared object through the API; exception-flow of the pre-flight stage'
 EXPLANATION += " Added: (R5) the API writes and returns the object prepare_dump returned; (R6) the caller's allow_changes reaches prepare_dump and defaults to False; (R7) every exception of the pre-flight stage leaves dump_one / dump_many as PrepareDumpError (the exception-flow clause C08-R2: a funnel narrowed to a tuple lets NotImplementedError through). The ownership domain models attrs.asdict(recurse=False), np.array(copy=False) / np.asarray views, out= arguments and stores on function / class / module objects."
 # --- end metadata batch 7
+# --- metadata added for batch 8
+EXPLANATION += ' Added: (R8) the evaluated guard matrix (same object / error / announced copy per format and object class) as the value-level form of R2 / R3: a pre-flight that re-orders an object silently is reported whatever `allow_changes` says.'
+# --- end metadata batch 8
 TRUSTED = [
     "CPython ast parser", "numpy view-vs-copy rules as tabulated in the ownership domain",
     "attrs.evolve makes a shallow copy", "basic slicing/attribute access returns views/members",
